@@ -267,8 +267,13 @@ def rule_c(rep: Report, idx: SourceIndex) -> None:
 	# the prop_keys cache is a pure function of class-level metadata
 	nd = idx.mod('rogw/tranp/syntax/node/node.py')
 	pk = nd.func('Node.prop_keys')
-	src = unparse(pk.node)
-	r.check("key = f'__{cls.__name__}_{cls.prop_keys.__name__}__'" in src and 'Meta.dig_for_method(Node, ctor, EmbedKeys.Expandable' in src and 'self' not in [n.id for n in ast.walk(pk.node) if isinstance(n, ast.Name)], 'prop_keys-cache-pure', pk.where, 'Node.prop_keys cache: the key no longer contains the class name or the value is no longer computed from class-level metadata only')
+	from vlib.match import FI, calls as _calls
+	pkx = FI(pk)
+	sets = [c_ for c_ in _calls(pkx, 'setattr') if len(c_.args) == 3]
+	if not sets:
+		r.skip('prop_keys-cache-pure', pk.where, 'Node.prop_keys no longer caches with setattr(cls, key, ...)')
+	for c_ in sets:
+		r.check(unparse(c_.args[0]) == 'cls' and ('cls.__name__' in unparse(c_.args[1]) or 'cls.__qualname__' in unparse(c_.args[1])) and 'self' not in [n.id for n in ast.walk(pk.node) if isinstance(n, ast.Name)] and bool(_calls(pkx, 'Meta.dig_for_method')), 'prop_keys-cache-pure', pk.where, f'Node.prop_keys cache: the key must contain the class name and the value must be computed from class-level metadata only: `{unparse(c_)[:160]}`')
 	r.note(f'{n_defaults} mutable default arguments found, none mutated')
 
 
